@@ -410,3 +410,20 @@ Proof. exact Guard4Proofs.variant_copy_samples_capacity. Qed.
 Theorem variant_copy_samples_too_small_refuted :
   exists cap samples, cap < zlen samples /\ variant_copy_samples cap samples = OOB.
 Proof. exact Guard4Proofs.variant_copy_samples_too_small_refuted. Qed.
+
+(* stale indexes: tsk_table_collection_copy carries the index over only when
+   tsk_table_collection_has_index holds (pointers AND indexes.num_edges == edges.num_rows), so
+   tsk_table_collection_set_indexes never reads more ids than the arrays hold *)
+Theorem guard_implies_in_bounds_copy_indexes : forall index_num_edges edges_num_rows,
+  0 <= index_num_edges -> copy_indexes true index_num_edges edges_num_rows <> OOB.
+Proof. exact Guard4Proofs.guard_implies_in_bounds_copy_indexes. Qed.
+
+(* seeded change C09-9 (pointer-only guard) *)
+Theorem copy_indexes_pointer_only_guard_mutant_refuted :
+  exists index_num_edges edges_num_rows, 0 <= index_num_edges < edges_num_rows /\
+    copy_indexes false index_num_edges edges_num_rows = OOB.
+Proof. exact Guard4Proofs.copy_indexes_pointer_only_guard_mutant_refuted. Qed.
+
+Theorem copy_indexes_shrunk_in_bounds : forall b index_num_edges edges_num_rows,
+  0 <= edges_num_rows <= index_num_edges -> copy_indexes b index_num_edges edges_num_rows <> OOB.
+Proof. exact Guard4Proofs.copy_indexes_shrunk_in_bounds. Qed.
